@@ -319,6 +319,19 @@ func (t *Type) NewType(Name string, Doc string, New NewFunc, Init InitFunc) *Typ
 	return t.NewTypeFlags(Name, Doc, New, Init, t.Flags)
 }
 
+// MetaclassOf returns the metaclass of a class used as a base.
+//
+// Types defined in Go as a subclass of another Go type (the exception
+// hierarchy for instance) record their base class in ObjectType, not
+// a metaclass: the metaclass of those is type.
+func MetaclassOf(base Object) *Type {
+	meta := base.Type()
+	if t, ok := base.(*Type); ok && t.Flags&TPFLAGS_HEAPTYPE == 0 && meta != TypeType && meta.Flags&TPFLAGS_TYPE_SUBCLASS == 0 {
+		return TypeType
+	}
+	return meta
+}
+
 // Determine the most derived metatype.
 func (metatype *Type) CalculateMetaclass(bases Tuple) (*Type, error) {
 	// Determine the proper metatype to deal with this,
@@ -328,7 +341,7 @@ func (metatype *Type) CalculateMetaclass(bases Tuple) (*Type, error) {
 
 	winner := metatype
 	for _, tmp := range bases {
-		tmptype := tmp.Type()
+		tmptype := MetaclassOf(tmp)
 		if winner.IsSubtype(tmptype) {
 			continue
 		}
@@ -1422,6 +1435,11 @@ func TypeNew(metatype *Type, args Tuple, kwargs StringDict) (Object, error) {
 	new_type = metatype.Alloc()
 	new_type.New = ObjectNew   // FIXME metatype.New // FIXME?
 	new_type.Init = ObjectInit // FIXME metatype.New // FIXME?
+	if base.Flags&TPFLAGS_BASE_EXC_SUBCLASS != 0 && base.New != nil {
+		// instances of python classes derived from an exception are
+		// exception objects, made by the exception constructor
+		new_type.New = base.New
+	}
 
 	// Keep name and slots alive in the extended type object
 	et := new_type
@@ -1649,7 +1667,8 @@ func ObjectInit(self Object, args Tuple, kwargs StringDict) error {
 	// Call the __init__ method if it exists
 	// FIXME this isn't the way cpython does it - it adjusts the function pointers
 	// Only do this for non built in types
-	if _, ok := self.(*Type); ok {
+	// (or instances of python classes made by a Go constructor: exceptions)
+	if _, ok := self.(*Type); ok || t.Flags&TPFLAGS_HEAPTYPE != 0 {
 		init := t.GetAttrOrNil("__init__")
 		// fmt.Printf("init = %v\n", init)
 		if init != nil {
